@@ -161,8 +161,6 @@ func (g *typeGen) mapValueType(depth int) reflect.Type {
 	return reflect.TypeOf(int64(0))
 }
 
-var fieldCounter int
-
 func (g *typeGen) structType(depth int) reflect.Type {
 	nf := 1 + g.rng.Intn(g.f.MaxFields)
 	if depth > 1 && nf > 3 {
@@ -171,7 +169,6 @@ func (g *typeGen) structType(depth int) reflect.Type {
 	fields := make([]reflect.StructField, 0, nf)
 	for i := 0; i < nf; i++ {
 		ft := g.fieldType(depth)
-		fieldCounter++
 		sf := reflect.StructField{Name: fmt.Sprintf("F%d", i), Type: ft}
 		jsonName := ""
 		opts := ""
